@@ -236,3 +236,49 @@ def _replay_relation(table, name, payload, first):
     else:
         ok = rel(vals)
     return {"violates": not ok, "values": {k: repr(v)[:80] for k, v in vals.items()}}
+
+
+def exhaustive_pairs():
+    """thorough tier: every label / bitmap pair of every table swept over all 65536 contents of its code word (two-word
+    bitmaps: low word x {0, 1, 0x8000, 0xFFFF} high words) on the real rows"""
+    from contracts import sensor as cs
+    from contracts.sensor_native import make_response
+    failures, obligations = [], []
+    cases = 0
+    for tn, rows in sorted(cs.sensor_tables().items()):
+        by_id = {r.id_: r for r in rows}
+        kind = cs.table_kind(tn)
+        for name, ids, rk, rel in all_relations(tn, rows):
+            if rk == "formula":
+                continue
+            ob = f"C13_sweep_{tn.split('.')[-1].strip('_')}_{name}"
+            obligations.append({"name": ob, "detail": f"{tn}/{name}: all 16-bit code words"})
+            offs = [by_id[i].offset for i in ids] + [getattr(by_id[ids[0]], "_offsetL", None) or by_id[ids[0]].offset]
+            first = min(offs) if kind == "modbus" else 0
+            n = ((max(offs) - first) * 2 + 8) if kind == "modbus" else max(offs) + 8
+            code = by_id[ids[-1]] if rk != "bitmap22" else by_id[ids[2]]
+            pos = (code.offset - first) * 2 if kind == "modbus" else code.offset
+            width = 1 if type(code).__name__ in ("Byte", "ByteH", "ByteL") else 2
+            highs = (0,) if rk != "bitmap22" else (0, 1, 0x8000, 0xFFFF)
+            nfail = 0
+            for hi in highs:
+                for w in range(65536 if width == 2 else 256):
+                    cases += 1
+                    b = bytearray(n)
+                    if width == 2:
+                        b[pos:pos + 2] = w.to_bytes(2, "big")
+                    else:
+                        b[pos + (1 if type(code).__name__ == "ByteL" else 0)] = w
+                    if rk == "bitmap22":
+                        hp = (by_id[ids[1]].offset - first) * 2
+                        b[hp:hp + 2] = hi.to_bytes(2, "big")
+                    if rk == "bitmap4":
+                        b[pos:pos + 2] = hi.to_bytes(2, "big")
+                        b[pos + 2:pos + 4] = w.to_bytes(2, "big")
+                    r = _replay_relation(tn, name, bytes(b), first)
+                    if r.get("violates"):
+                        nfail += 1
+                        if nfail <= 3:
+                            failures.append({"obligation": ob, "payload": bytes(b).hex(), "first": first,
+                                             "values": r.get("values")})
+    return {"cases": cases, "exhaustive": True, "failures": failures, "obligations": obligations}
